@@ -1248,20 +1248,21 @@ func genConfigs(r *core.Run) ([]genCfg, error) {
 		return nil, err
 	}
 	tmpl := string(b)
-	if !strings.Contains(tmpl, "Shapes <- ShapesQuick") || !strings.Contains(tmpl, "Pick = 1") {
+	if !strings.Contains(tmpl, "\n  Shapes <- ShapesQuick\n") || !strings.Contains(tmpl, "\n  Pick = 1\n") {
 		return nil, fmt.Errorf("unexpected shape of LinkGen.quick.cfg")
 	}
 	pick := int(r.Seed % 1000)
 	if pick <= 0 {
 		pick = 1
 	}
-	if !strings.Contains(tmpl, "Half = 0") {
+	if !strings.Contains(tmpl, "\n  Half = 0\n") {
 		return nil, fmt.Errorf("unexpected shape of LinkGen.quick.cfg")
 	}
 	mk := func(shapes string, pick, half int) genCfg {
-		t := strings.Replace(tmpl, "Shapes <- ShapesQuick", "Shapes <- "+shapes, 1)
-		t = strings.Replace(t, "Pick = 1", fmt.Sprintf("Pick = %d", pick), 1)
-		t = strings.Replace(t, "Half = 0", fmt.Sprintf("Half = %d", half), 1)
+		// (the constant lines, not the header comment)
+		t := strings.Replace(tmpl, "\n  Shapes <- ShapesQuick\n", "\n  Shapes <- "+shapes+"\n", 1)
+		t = strings.Replace(t, "\n  Pick = 1\n", fmt.Sprintf("\n  Pick = %d\n", pick), 1)
+		t = strings.Replace(t, "\n  Half = 0\n", fmt.Sprintf("\n  Half = %d\n", half), 1)
 		return genCfg{fmt.Sprintf("LinkGen.%s.%d.cfg", shapes, half), t}
 	}
 	if !r.Thorough() {
